@@ -505,8 +505,18 @@ fn judge(cx: &mut Ctx, sub: &Subject<'_>, user: &[i32], out: &[u8], tuple: &[i16
                 if unsupported {
                     cx.class("not-judged:lsb-of-point-matching-composite");
                 } else if transformed && matches!(glyph, Glyph::Composite(_)) {
-                    // the bounding box of a transformed component is rounding- and engine-dependent
-                    cx.class("not-judged:lsb-of-transformed-composite");
+                    // the bounding box of a transformed component is rounding- and engine-dependent:
+                    // only the identity where nothing varies is judged
+                    if !gid_moves(vf, gid, coords) {
+                        if olsb != lsb0 {
+                            let sig = if has_skewed_component(&vf.glyphs, gid, 0) { "lsb-changed-without-delta:rotated-or-skewed-component" } else { "lsb-changed-without-delta:scaled-component" };
+                            cx.violation("default-identity", sig, gw(format!("lsb {} became {} although nothing in the glyph varies here", lsb0, olsb), vec![("glyphs", J::s(format!("{:?}", vf.glyphs).chars().take(3000).collect::<String>()))]));
+                        } else {
+                            cx.class("lsb:transformed-composite-identity");
+                        }
+                    } else {
+                        cx.class("not-judged:lsb-of-transformed-composite");
+                    }
                 } else {
                     let tol = tol_derived() + 0.5 * depth as f64;
                     let moved = gid_moves(vf, gid, coords);
@@ -667,6 +677,9 @@ fn judge(cx: &mut Ctx, sub: &Subject<'_>, user: &[i32], out: &[u8], tuple: &[i16
     if vf.avar.is_some() {
         cx.class("avar-present");
     }
+    if na > 4 {
+        cx.class("axes:more-than-4");
+    }
     if let Some(h) = &vf.hvar {
         cx.class(if h.adv_map.is_some() { "hvar:with-advance-map" } else { "hvar:implicit-glyph-index" });
         if let Some(m) = &h.adv_map {
@@ -775,6 +788,17 @@ fn judge_cff2(cx: &mut Ctx, sub: &Subject<'_>, c: &cff2::Cff2, of: &sfnt::Font, 
         }
     }
     nontrivial
+}
+
+/// Is there a component with a 2x2 transform that has off-diagonal terms below this glyph?
+fn has_skewed_component(glyphs: &[Glyph], gid: usize, depth: usize) -> bool {
+    if depth > 6 {
+        return true;
+    }
+    match glyphs.get(gid) {
+        Some(Glyph::Composite(c)) => c.components.iter().any(|k| matches!(k.scale, crate::sfnt::glyf::Scale::Matrix(_, b, c2, _) if b != 0 || c2 != 0) || has_skewed_component(glyphs, k.gid as usize, depth + 1)),
+        _ => false,
+    }
 }
 
 /// Does anything that determines the glyph's lsb (its points, its components, pp1) vary here?
